@@ -2,29 +2,31 @@
 
 // Contracts for gvc (/verif). Comment-only: this file adds no declarations.
 
-package str
-
-// C17 sweep: str: builtins never panic, whatever their arguments.
-//@ func repeat
-//@   props C17
+package file
 
 // C17 sweep: zero-annotation panic-freedom obligations for the module's functions,
 // for every argument value.
-//@ func fromCodepoints
+//@ func isTTY
 //@   props C17
-//@ func hex
+//@ func isTTYPort
 //@   props C17
-//@ func fromUtf8Bytes
+//@ func open
 //@   props C17
-//@ func join
+//@ func openOutputOpts.SetDefaultOptions
 //@   props C17
-//@ func maxOpt.SetDefaultOptions
+//@ func openOutput
 //@   props C17
-//@ func replace
+//@ func close
 //@   props C17
-//@ func split
+//@ func pipe
 //@   props C17
-//@ func toCodepoints
+//@ func seekOpts.SetDefaultOptions
 //@   props C17
-//@ func toUtf8Bytes
+//@ func seek
+//@   props C17
+//@ func tell
+//@   props C17
+//@ func truncate
+//@   props C17
+//@ func toInt64
 //@   props C17
